@@ -9,6 +9,7 @@ require (
 	github.com/relex/gotils v1.1.1
 	github.com/relex/slog-agent v0.0.0
 	github.com/vmihailenco/msgpack/v4 v4.3.13
+	gopkg.in/yaml.v3 v3.0.1
 )
 
 require (
@@ -29,7 +30,6 @@ require (
 	golang.org/x/sys v0.21.0 // indirect
 	golang.org/x/term v0.21.0 // indirect
 	google.golang.org/protobuf v1.34.2 // indirect
-	gopkg.in/yaml.v3 v3.0.1 // indirect
 )
 
 replace github.com/relex/slog-agent => /repo
